@@ -31,8 +31,8 @@ static int cmd_macro(int, char**) {
     }
     json runs = json::array();
     for (auto& k : in["passes"]) {
-      std::vector<MacroDefinition> defs = mer.macros;
-      MacroApplicationResult mar = apply_macros(mer.tokens, defs, k.get<unsigned>());
+      // the same definition vector for every application: apply_macros takes it by reference and must leave it usable
+      MacroApplicationResult mar = apply_macros(mer.tokens, mer.macros, k.get<unsigned>());
       json errs = json::array();
       for (auto& e : mar.errors) errs.push_back(json::array({(int)e.t, e.file, e.line}));
       runs.push_back({{"passes", k}, {"toks", th::tokens_json(mar.transformed_sequence)}, {"errs", errs}});
